@@ -95,6 +95,29 @@ TEXTBOOK = {
     },
 }
 
+# Johnson solids by number (Johnson 1966): V, E, F — typed independently of /repo
+JOHNSON = {
+    "J1": (5, 8, 5), "J2": (6, 10, 6), "J3": (9, 15, 8), "J4": (12, 20, 10), "J5": (15, 25, 12),
+    "J6": (20, 35, 17), "J7": (7, 12, 7), "J8": (9, 16, 9), "J9": (11, 20, 11), "J10": (9, 20, 13),
+    "J11": (11, 25, 16), "J12": (5, 9, 6), "J13": (7, 15, 10), "J14": (8, 15, 9), "J15": (10, 20, 12),
+    "J16": (12, 25, 15), "J17": (10, 24, 16), "J18": (15, 27, 14), "J19": (20, 36, 18), "J20": (25, 45, 22),
+    "J21": (30, 55, 27), "J22": (15, 33, 20), "J23": (20, 44, 26), "J24": (25, 55, 32), "J25": (30, 65, 37),
+    "J26": (8, 14, 8), "J27": (12, 24, 14), "J28": (16, 32, 18), "J29": (16, 32, 18), "J30": (20, 40, 22),
+    "J31": (20, 40, 22), "J32": (25, 50, 27), "J33": (25, 50, 27), "J34": (30, 60, 32), "J35": (18, 36, 20),
+    "J36": (18, 36, 20), "J37": (24, 48, 26), "J38": (30, 60, 32), "J39": (30, 60, 32), "J40": (35, 70, 37),
+    "J41": (35, 70, 37), "J42": (40, 80, 42), "J43": (40, 80, 42), "J44": (18, 42, 26), "J45": (24, 56, 34),
+    "J46": (30, 70, 42), "J47": (35, 80, 47), "J48": (40, 90, 52), "J49": (7, 13, 8), "J50": (8, 17, 11),
+    "J51": (9, 21, 14), "J52": (11, 19, 10), "J53": (12, 23, 13), "J54": (13, 22, 11), "J55": (14, 26, 14),
+    "J56": (14, 26, 14), "J57": (15, 30, 17), "J58": (21, 35, 16), "J59": (22, 40, 20), "J60": (22, 40, 20),
+    "J61": (23, 45, 24), "J62": (10, 20, 12), "J63": (9, 15, 8), "J64": (10, 18, 10), "J65": (15, 27, 14),
+    "J66": (28, 48, 22), "J67": (32, 60, 30), "J68": (65, 105, 42), "J69": (70, 120, 52), "J70": (70, 120, 52),
+    "J71": (75, 135, 62), "J72": (60, 120, 62), "J73": (60, 120, 62), "J74": (60, 120, 62), "J75": (60, 120, 62),
+    "J76": (55, 105, 52), "J77": (55, 105, 52), "J78": (55, 105, 52), "J79": (55, 105, 52), "J80": (50, 90, 42),
+    "J81": (50, 90, 42), "J82": (50, 90, 42), "J83": (45, 75, 32), "J84": (8, 18, 12), "J85": (16, 40, 26),
+    "J86": (10, 22, 14), "J87": (11, 26, 17), "J88": (12, 28, 18), "J89": (14, 33, 21), "J90": (16, 38, 24),
+    "J91": (14, 26, 14), "J92": (18, 36, 20),
+}
+
 GEN_DIR = os.path.join(LEAN, "CoxeterVerif", "Generated")
 OWN_PREFIXES = ("Tables", "Check")  # the only generated files this module writes or deletes
 OK_MARK = os.path.join(LEAN, ".lake", "c18_generated_ok.sha1")
@@ -170,11 +193,12 @@ def _int_lean(v):
     return ".ofNat (nat_lit %d)" % v if v >= 0 else ".negSucc (nat_lit %d)" % (-v - 1)
 
 
-def _entry_lean(ident, name, typ, verts, faces, source, ref):
+def _entry_lean(ident, name, typ, verts, faces, source, ref, short=""):
     vs = ", ".join("⟨%s, %s, %s⟩" % tuple(_int_lean(c) for c in v) for v in verts)
     fs = ", ".join("[" + ", ".join("nat_lit %d" % i for i in f) + "]" for f in faces)
-    return ("def %s : Tab.Entry :=\n  { name := %s, type := %s, source := %s, ref := %s,\n    verts := [%s],\n"
-            "    faces := [%s] }\n" % (ident, _lean_str(name), _lean_str(typ), _lean_str(source), _lean_str(ref), vs, fs))
+    return ("def %s : Tab.Entry :=\n  { name := %s, type := %s, source := %s, ref := %s, short := %s,\n"
+            "    verts := [%s],\n    faces := [%s] }\n" % (ident, _lean_str(name), _lean_str(typ), _lean_str(source),
+                                                         _lean_str(ref), _lean_str(short), vs, fs))
 
 
 def _chunks(items):
@@ -208,7 +232,8 @@ def table_entries(fams=None):
             src = rec.get("source") or ""
             ref = (rec.get("name") or "") if src else ""
             typ = rec.get("type")
-            items.append({"ident": "%s_%d" % (lean_id, j), "name": name, "type": typ if isinstance(typ, str) else "",
+            short = rec.get("short_name") or rec.get("short_code") or ""
+            items.append({"short": short if isinstance(short, str) else "", "ident": "%s_%d" % (lean_id, j), "name": name, "type": typ if isinstance(typ, str) else "",
                           "verts": verts, "faces": faces, "source": src if isinstance(src, str) else "",
                           "ref": ref if isinstance(ref, str) else ""})
         out[lean_id] = items
@@ -237,7 +262,7 @@ def generate(fams=None):
                     "namespace Tables", ""]
             for it in chunk:
                 body.append(_entry_lean(it["ident"], it["name"], it["type"], it["verts"], it["faces"], it["source"],
-                                        it["ref"]))
+                                        it["ref"], it["short"]))
             ids = [it["ident"] for it in chunk]
             body.append("def %s_chunk%d : List Tab.Entry := [%s]" % (lean_id, k, ", ".join(ids)))
             body.append("\nend Tables\n")
@@ -962,6 +987,10 @@ def mutant_certificates(ctx, entries, tables_json):
         compare_lean_float(ctx, case, lean, fl, near, what="c18.check(mutant)")
         if not lean["polyhedron"]:
             rejected += 1
+        if it.get("_base_ok") is None:
+            it["_base_ok"] = bool(lean_check(ctx, it["verts"], it["faces"])["polyhedron"])
+        if not it["_base_ok"]:
+            continue   # the unmodified certificate is already broken (reported by eval_entry); nothing to expect
         if kind == "nudge" and not lean["polyhedron"]:
             ctx.disagree("c18.check(mutant):nudge-rejected", case, {k: lean[k] for k in LEAN_KEYS})
         if kind in ("reverse", "drop", "dup", "range", "merge") and lean["polyhedron"]:
